@@ -19,3 +19,70 @@ Proof.
   - apply Z.leb_le. exact H.
 Qed.
 
+
+(** ** Auto-remediation: merging two queued 'modified' events has the effect of
+    applying them in order (C08) *)
+Lemma lookup_difference_o (m1 m2 : obj) i :
+  (m1 ∖ m2) !! i = match m2 !! i with Some _ => None | None => m1 !! i end.
+Proof. apply lookup_difference'. Qed.
+
+Lemma lookup_filter_none (a : obj) (m : obj) i :
+  filter (fun kv => a !! fst kv = None) m !! i = match a !! i with Some _ => None | None => m !! i end.
+Proof.
+  rewrite map_filter_lookup. destruct (m !! i) as [x|] eqn:Hm; simpl.
+  - destruct (a !! i) eqn:Ha.
+    + rewrite option_guard_False; [reflexivity|]. simpl. discriminate.
+    + rewrite option_guard_True; [reflexivity|]. simpl. reflexivity.
+  - destruct (a !! i); reflexivity.
+Qed.
+
+(** a diff is well formed w.r.t. the object it applies to *)
+Definition wf_diff (d : mdiff) (o : obj) : Prop :=
+  forall a,
+    (is_Some (md_a d !! a) -> o !! a = None /\ md_m d !! a = None /\ md_r d !! a = None)
+    /\ (is_Some (md_m d !! a) -> is_Some (o !! a) /\ md_r d !! a = None)
+    /\ (is_Some (md_r d !! a) -> is_Some (o !! a)).
+
+Theorem merge_mod_effect p l o :
+  wf_diff p o -> wf_diff l (apply_mod p o) ->
+  apply_mod (merge_mod p l) o = apply_mod l (apply_mod p o).
+Proof.
+  intros Hp Hl. apply map_eq. intros a.
+  specialize (Hp a). specialize (Hl a). rewrite lookup_apply_mod in Hl.
+  rewrite !lookup_apply_mod. unfold merge_mod. cbn [md_a md_m md_r].
+  rewrite !lookup_union, !lookup_difference_o, !lookup_filter_none, !map_lookup_imap, !lookup_union,
+    ?lookup_difference_o, ?lookup_filter_none, ?map_lookup_imap, ?lookup_union.
+  destruct Hp as (Hpa & Hpm & Hpr). destruct Hl as (Hla & Hlm & Hlr).
+  destruct (md_a p !! a) as [pa|] eqn:Epa, (md_m p !! a) as [pm|] eqn:Epm, (md_r p !! a) as [pr|] eqn:Epr,
+           (md_a l !! a) as [la|] eqn:Ela, (md_m l !! a) as [lm|] eqn:Elm, (md_r l !! a) as [lr|] eqn:Elr,
+           (o !! a) as [ov|] eqn:Eo; simpl in *;
+    try reflexivity;
+    try (exfalso; first
+      [ destruct (Hpa ltac:(eauto)) as (? & ? & ?); congruence
+      | destruct (Hpm ltac:(eauto)) as ([? ?] & ?); congruence
+      | destruct (Hpr ltac:(eauto)) as [? ?]; congruence
+      | destruct (Hla ltac:(eauto)) as (? & ? & ?); congruence
+      | destruct (Hlm ltac:(eauto)) as ([? ?] & ?); congruence
+      | destruct (Hlr ltac:(eauto)) as [? ?]; congruence ]).
+Qed.
+
+(** 'added' followed by 'modified' merges into the 'added' of the final object *)
+Theorem merge_added_modified_effect a l : apply_to_added a l = apply_mod l a.
+Proof. reflexivity. Qed.
+
+(** a partially processed event is never merged *)
+Theorem remediate_skips_partial c st q num last prev rest :
+  cc_remed c <> RDisabled ->
+  List.find (fun e => Z.eqb (q_num e) num) q = Some last ->
+  rev (List.filter (fun e => idq (ce_id (q_local e)) (ce_id (q_local last))) q) = last :: prev :: rest ->
+  ce_partial (q_local prev) || ce_partial (q_local last)
+    || ev_partial (q_remote prev) || ev_partial (q_remote last) = true ->
+  remediate c st q num = q.
+Proof.
+  intros Hpol Hf Hrev Hp. unfold remediate. destruct (cc_remed c); [contradiction| |];
+    rewrite Hf, Hrev, Hp; reflexivity.
+Qed.
+
+(** with remediation disabled the queue is left alone *)
+Theorem remediate_disabled c st q num : cc_remed c = RDisabled -> remediate c st q num = q.
+Proof. intros H. unfold remediate. rewrite H. reflexivity. Qed.
